@@ -408,7 +408,8 @@ impl Property for C14 {
                 alt_keys: vec![],
             })
         });
-        Box::new(sweep.chain(presence).chain(clash))
+        let near = history::near_limit_sockets(quick).into_iter().map(Case::Hist);
+        Box::new(sweep.chain(presence).chain(clash).chain(near))
     }
     fn fuzz_plans(&self) -> Vec<(&'static str, u64)> {
         vec![("history", 8000)]
